@@ -1038,10 +1038,13 @@ package trzsz
 
 //@ # the bar is total (no input makes it fail) and exactly as wide as asked, or absent below 12 cells
 //@ func textProgressBar.getProgressBar
-//@   requires p.colorA == nil || p.colorB == nil
-//@   assigns nothing
+//@   assigns sbWidth, sbAscii
 //@   ensures length < 12 ==> len(r0) == 0
-//@   ensures length >= 12 ==> vw(r0) == length
+//@   ensures length >= 12 ==> vw(r0) <= length
+//@   ensures length >= 12 && (p.colorA == nil || p.colorB == nil) ==> vw(r0) == length
+//@   # the gradient bar (colour pair configured): one cell per step of the loop
+//@   loop 1
+//@     invariant 0 <= i && i <= fullSize && sbWidth[buf] <= 1 + i
 //@ end
 
 
@@ -1049,7 +1052,6 @@ package trzsz
 //@ # terminal: fields are dropped and the name shortened step by step, and what is left is either
 //@ # exactly the width (with a bar of at least 12 cells) or just the percentage.
 //@ func textProgressBar.getProgressText
-//@   requires p.colorA == nil || p.colorB == nil
 //@   requires isAscii(percentage) && isAscii(total) && isAscii(speed) && isAscii(eta) && len(percentage) <= 4
 //@   assigns sbWidth, sbAscii
 //@   ensures atomicVal[p.columns] >= 4 ==> vw(r0) <= atomicVal[p.columns]
@@ -1159,6 +1161,11 @@ package trzsz
 //@ end
 //@ func TrzszRelay.recvConfig
 //@   requires relayBufs(r)
+//@   # C14: what the server's CFG does not say keeps the defaults the real client would use; the Windows line
+//@   # ending is pre-set only for a Windows SERVER (never because of the client) - the relay adds nothing
+//@   # that neither end negotiated
+//@   before json.Unmarshal assert [C14] config.Timeout == 20 && config.MaxBufSize == 10485760 && \
+//@       (config.Newline == "\n" || (r.trigger.winServer && config.Newline == "!\n"))
 //@   assigns fields(r.stdoutBuffer), recvd, bufLen, bufCap, bufArr, elemsof("byte"), wlog, wlen
 //@   ensures relayBufs(r)
 //@   ensures r1 == nil ==> r0 != nil && r0 > old(alloc())
@@ -1327,7 +1334,12 @@ package trzsz
 //@   ensures [C17] t.tunnelConnected && !tunnel ==> sentCnt == old(sentCnt) && sentBytes == old(sentBytes)
 //@ end
 
+//@ # both greetings carry the transfer's id without its last two characters (the environment flag) - the
+//@ # whole rest of the id, never a shorter one - and the port
 //@ func getHelloConstant pure
+//@   before fmt.Sprintf assert [C17] asInt(p1[1]) == port && \
+//@       len(asString(p1[0])) == ite(len(uniqueID) > 2, len(uniqueID) - 2, len(uniqueID)) && \
+//@       (forall k int {asString(p1[0])[k]} :: 0 <= k && k < len(asString(p1[0])) ==> asString(p1[0])[k] == uniqueID[k])
 //@ end
 
 //@ # The relay's side of the tunnel: the server is dialled only after the client presented exactly the
